@@ -43,6 +43,10 @@ type KnownFinding struct {
 	Obligation string `json:"obligation"`
 	What       string `json:"what"`
 	Witness    string `json:"witness,omitempty"` // substring that must occur in the failing detail/model
+	// Characterisation names an obligation stating the exact (defective) behaviour recorded
+	// here; the finding counts as "reproduced as listed" only while that obligation still
+	// discharges, so a different violation of the same obligation is reported.
+	Characterisation string `json:"characterisation,omitempty"`
 }
 
 type KnownFile struct {
@@ -136,14 +140,47 @@ func (e *Engine) RunContracts(pc *PropertyCheck, timeout time.Duration, maxPaths
 	}
 	sort.Slice(fns, func(i, j int) bool { return fns[i].String() < fns[j].String() })
 	for _, ct := range e.Specs.Contracts {
-		if ct.Trusted && contractServes(ct, pc.ID) {
+		if ct.Trusted && !ct.HavocOnly && contractServes(ct, pc.ID) {
 			pc.Trusted = append(pc.Trusted, ct.PkgPath+" "+ct.Key)
 		}
 	}
-	usedTrusted := map[string]bool{}
+	// interface contracts that are not derived/trusted are checked against every elys
+	// implementation of the interface method
+	type job struct {
+		fn *ssa.Function
+		ct *sym.Contract
+	}
+	var jobs []job
 	for _, fn := range fns {
-		ct := e.Env.Cfg.Contracts[fn]
+		jobs = append(jobs, job{fn, e.Env.Cfg.Contracts[fn]})
+	}
+	for _, ct := range e.Specs.Contracts {
+		if ct.Iface && !ct.Trusted && contractServes(ct, pc.ID) {
+			impls := e.IfaceImpls(ct)
+			if len(impls) == 0 {
+				pc.Outcomes = append(pc.Outcomes, &Outcome{Name: "iface:" + ct.Key + "/implementations", Status: "undecided", Kind: "scan", Detail: "no implementation found"})
+			}
+			for _, fn := range impls {
+				jobs = append(jobs, job{fn, ct})
+			}
+		}
+	}
+	usedTrusted := map[string]bool{}
+	externals := map[string]bool{}
+	defer func() {
+		var xs []string
+		for k := range externals {
+			xs = append(xs, k)
+		}
+		sort.Strings(xs)
+		pc.Extra["unmodelled_externals_treated_as_havoc_or_fresh"] = xs
+	}()
+	for _, jb := range jobs {
+		fn, ct := jb.fn, jb.ct
 		fkey := sym.FuncKey(fn)
+		if ct.Iface {
+			fkey = "iface:" + ct.Key + "@" + fkey
+		}
 		full := shortPkg(fn) + "." + fkey
 		pc.Funcs = append(pc.Funcs, full)
 		fr := e.Env.VerifyFunc(fn, ct, maxPaths)
@@ -157,6 +194,9 @@ func (e *Engine) RunContracts(pc *PropertyCheck, timeout time.Duration, maxPaths
 			}
 			for k := range p.Used {
 				usedTrusted[k] = true
+			}
+			for k := range p.Externals {
+				externals[k] = true
 			}
 		}
 		for k, v := range fr.Bounded {
@@ -219,8 +259,12 @@ func (e *Engine) RunContracts(pc *PropertyCheck, timeout time.Duration, maxPaths
 	}
 	for k := range usedTrusted {
 		for _, ct := range e.Specs.Contracts {
-			if ct.Trusted && ct.PkgPath+" "+ct.Key == k {
-				pc.Assumed = append(pc.Assumed, "trusted contract used: "+shortPath(ct.PkgPath)+" "+ct.Key)
+			if ct.Trusted && !ct.HavocOnly && ct.PkgPath+" "+ct.Key == k {
+				why := "trusted contract used"
+				if ct.Derived != "" {
+					why = "derived (not body-checked) contract used [" + ct.Derived + "]"
+				}
+				pc.Assumed = append(pc.Assumed, why+": "+shortPath(ct.PkgPath)+" "+ct.Key)
 			}
 		}
 	}
@@ -321,11 +365,26 @@ func (e *Engine) Finish(pc *PropertyCheck, level, technique string, extraAssumpt
 		names = append(names, n)
 	}
 	sort.Strings(names)
+	matches := func(k KnownFinding, o *Outcome) bool {
+		if k.Property != pc.ID || k.Obligation != o.Name || o.Status == "discharged" {
+			return false
+		}
+		if k.Witness != "" && !strings.Contains(o.Detail, k.Witness) && !replayContains(o, k.Witness) {
+			return false
+		}
+		if k.Characterisation != "" {
+			c := byName[k.Characterisation]
+			if c == nil || c.Status != "discharged" {
+				return false
+			}
+		}
+		return true
+	}
 	report := func(o *Outcome, reason string) {
 		// known finding?
 		for i, k := range known.Findings {
-			if k.Property == pc.ID && k.Obligation == o.Name && o.Status != "discharged" {
-				if k.Witness == "" || strings.Contains(o.Detail, k.Witness) || replayContains(o, k.Witness) {
+			if matches(k, o) {
+				{
 					if !knownHit[i] {
 						knownHit[i] = true
 						line := fmt.Sprintf("KNOWN-FINDING: property=%s %s — %s", pc.ID, o.Name, k.What)
@@ -348,20 +407,32 @@ func (e *Engine) Finish(pc *PropertyCheck, level, technique string, extraAssumpt
 	}
 	for _, n := range names {
 		o := byName[n]
-		if o.Status == "discharged" {
+		if o.Status == "discharged" || strings.Contains(n, "/known-defect-") {
 			continue
 		}
 		if claimed[n] {
 			report(o, "claimed obligation no longer discharges")
 		} else {
 			// never-claimed obligation: known finding or silently undecided (listed in evidence)
+			isKnown := false
 			for i, k := range known.Findings {
-				if k.Property == pc.ID && k.Obligation == o.Name && !knownHit[i] {
-					if k.Witness == "" || strings.Contains(o.Detail, k.Witness) || replayContains(o, k.Witness) {
+				if matches(k, o) {
+					isKnown = true
+					if !knownHit[i] {
 						knownHit[i] = true
 						line := fmt.Sprintf("KNOWN-FINDING: property=%s %s — %s", pc.ID, o.Name, k.What)
 						fmt.Println(line)
 						pc.Known = append(pc.Known, line)
+					}
+				}
+			}
+			// an obligation listed as a known finding that now fails in a way the listing does
+			// not describe is a different violation of the property
+			if !isKnown {
+				for _, k := range known.Findings {
+					if k.Property == pc.ID && k.Obligation == o.Name {
+						report(o, "fails differently from the recorded known finding")
+						break
 					}
 				}
 			}
